@@ -76,16 +76,16 @@ type Event struct {
 
 // ConcRun is the outcome of one execution of a scenario.
 type ConcRun struct {
-	X        *vsync.Exec
-	Events   []Event
-	OpenErr  string
-	Final    Model // contents at quiescence (after the threads joined), nil if the database was closed by a thread
-	FinalMsg string
-	CloseErr string
-	Closed   bool // a thread called Close
-	Sess     *Sess
-	Reopened Model // contents after Close and a fresh Open
-	ReopenMsg string
+	X          *vsync.Exec
+	Events     []Event
+	OpenErr    string
+	Final      Model // contents at quiescence (after the threads joined), nil if the database was closed by a thread
+	FinalMsg   string
+	CloseErr   string
+	Closed     bool // a thread called Close
+	Sess       *Sess
+	Reopened   Model // contents after Close and a fresh Open
+	ReopenMsg  string
 	BackupDirs []string
 	QuietBad   bool   // a Next call treated as a pure pop by the QuietPop reduction made a file-system call
 	ReplayMsg  string // non-empty if the independent replay of the segment files at quiescence differs from the contents
@@ -497,9 +497,9 @@ func ExploreScenario(c *Ctx, sc *Scenario, base *Base, slice time.Time, check fu
 			}
 			tr := RunScenario(sc, base, r.X.Choices, true)
 			viol = &Violation{
-				Key:  fmt.Sprintf("%s %s", class, sc.Describe()),
-				What: fmt.Sprintf("scenario %s, schedule %v (%d preemptions): %s", sc.Describe(), r.X.Choices, preemptions(r.X), msg),
-				Size: len(sc.Describe())/10 + 1000*preemptions(r.X) + len(r.X.Choices),
+				Key:    fmt.Sprintf("%s %s", class, sc.Describe()),
+				What:   fmt.Sprintf("scenario %s, schedule %v (%d preemptions): %s", sc.Describe(), r.X.Choices, preemptions(r.X), msg),
+				Size:   len(sc.Describe())/10 + 1000*preemptions(r.X) + len(r.X.Choices),
 				Replay: map[string]interface{}{"kind": "schedule", "scenario": sc.JSON(), "choices": r.X.Choices, "class": class, "observed": msg, "trace": tr.X.Trace, "events": eventsJSON(tr)},
 			}
 		}
